@@ -307,6 +307,12 @@ pub struct Tweaks {
     /// announce the hash in the body but carry no auxiliary data (fee and size consistent, unlike stripping it afterwards)
     #[serde(default)]
     pub aux_data_omitted: bool,
+    /// write an empty output list and declare everything the inputs hold as the fee (balanced in lovelace, degenerate in shape)
+    #[serde(default)]
+    pub no_outputs: bool,
+    /// the first output holds 0 lovelace (its amount goes to the change output instead; still balanced)
+    #[serde(default)]
+    pub zero_coin_output: bool,
 }
 
 pub fn forge(spec: &Spec) -> Result<Forged, String> {
@@ -549,7 +555,11 @@ pub fn forge_with(spec: &Spec, tw: &Tweaks) -> Result<Forged, String> {
         m.push((0, cx::array(sorted_inputs.iter().map(|(t, i)| input_node(t, *i)).collect())));
         let mut onodes = vec![];
         for (i, (addr, coin, a)) in outs.iter().enumerate() {
+            if tw.no_outputs {
+                break;
+            }
             let last = i + 1 == n_out;
+            let coin = if tw.zero_coin_output && i == 0 && !last { &0u64 } else { coin };
             let v = if last { value_node(change, a, Some(W::B8)) } else { value_node(*coin, a, None) };
             let mut addr = addr.clone();
             if tw.wrong_output_network && i == 0 {
@@ -646,6 +656,12 @@ pub fn forge_with(spec: &Spec, tw: &Tweaks) -> Result<Forged, String> {
     }
     let mut change = (total_coin - need) as u64;
     change = (change as i128 + tw.change_delta as i128 + tw.change_plus_fee as i128 * fee as i128).clamp(0, u64::MAX as i128) as u64;
+    if tw.zero_coin_output && n_out > 1 {
+        change = change.saturating_add(spec.outputs[0].coin);
+    }
+    if tw.no_outputs {
+        fee = (fee as u128 + change as u128 + spent_coin).min(u64::MAX as u128) as u64;
+    }
     if let Some(f) = tw.fee_override {
         fee = f;
     }
